@@ -198,9 +198,10 @@ const MMAP_MAGIC: [u8; 8] = *b"GRAFVEC1";
 /// Memory-mapped vector storage backed by a file.
 ///
 /// Vectors are stored in a binary file format:
-/// - Header: magic, dimensions, count, version
-/// - Index: NodeId -> offset mapping
-/// - Data: packed f32 vectors
+/// - Header: magic, dimensions, record count, version
+/// - Data: a sequence of records `(NodeId, packed f32 vector)`; a record that was
+///   removed or superseded by a later insert of the same id carries the reserved
+///   id `NodeId::INVALID` and is skipped by [`MmapStorage::open`]
 ///
 /// This provides low memory usage while maintaining fast access through
 /// the operating system's page cache.
@@ -292,7 +293,10 @@ impl MmapStorage {
             file.read_exact(&mut id_bytes)?;
             let id = NodeId::new(u64::from_le_bytes(id_bytes));
 
-            index.insert(id, offset + 8);
+            // Removed / superseded records are marked with the reserved id
+            if id.is_valid() {
+                index.insert(id, offset + 8);
+            }
         }
 
         let write_offset = MMAP_HEADER_SIZE as u64 + (count as u64) * (8 + bytes_per_vector as u64);
@@ -331,13 +335,24 @@ impl MmapStorage {
         self.cache.write().clear();
     }
 
-    /// Updates the count in the file header.
-    fn update_header_count(&self) -> io::Result<()> {
-        let count = self.index.read().len() as u64;
-        let mut file = self.file.write();
+    /// Size in bytes of one record (id + vector data).
+    fn record_size(&self) -> u64 {
+        8 + (self.dimensions * 4) as u64
+    }
+
+    /// Writes the number of records (live or not) that precede `write_offset`
+    /// into the file header. `open` reads exactly that many records.
+    fn write_header_count(&self, file: &mut File, write_offset: u64) -> io::Result<()> {
+        let count = (write_offset - MMAP_HEADER_SIZE as u64) / self.record_size();
         file.seek(SeekFrom::Start(16))?;
-        file.write_all(&count.to_le_bytes())?;
-        Ok(())
+        file.write_all(&count.to_le_bytes())
+    }
+
+    /// Marks the record whose vector data starts at `data_offset` as deleted by
+    /// overwriting its id with the reserved id.
+    fn mark_deleted(file: &mut File, data_offset: u64) -> io::Result<()> {
+        file.seek(SeekFrom::Start(data_offset - 8))?;
+        file.write_all(&NodeId::INVALID.as_u64().to_le_bytes())
     }
 }
 
@@ -365,11 +380,14 @@ impl VectorStorage for MmapStorage {
         let bytes: Vec<u8> = vector.iter().flat_map(|f| f.to_le_bytes()).collect();
         file.write_all(&bytes)?;
 
-        // Update index
-        self.index.write().insert(id, *offset + 8);
+        // Update index; an earlier record of the same id is superseded
+        if let Some(old) = self.index.write().insert(id, *offset + 8) {
+            Self::mark_deleted(&mut file, old)?;
+        }
 
-        // Update write offset
-        *offset += 8 + (self.dimensions * 4) as u64;
+        // Update write offset and the record count in the header
+        *offset += self.record_size();
+        self.write_header_count(&mut file, *offset)?;
 
         // Update cache
         let mut cache = self.cache.write();
@@ -383,9 +401,7 @@ impl VectorStorage for MmapStorage {
         let arc: Arc<[f32]> = vector.into();
         cache.insert(id, arc);
 
-        drop(file);
-        drop(offset);
-        self.update_header_count()
+        Ok(())
     }
 
     fn get(&self, id: NodeId) -> Option<Arc<[f32]>> {
@@ -429,9 +445,21 @@ impl VectorStorage for MmapStorage {
     }
 
     fn remove(&self, id: NodeId) -> bool {
-        // Remove from index and cache (data remains in file as "deleted")
+        // Remove from index and cache (data remains in file, marked as deleted so
+        // that a reopened file does not bring it back)
+        let mut file = self.file.write();
+        let mut index = self.index.write();
+        let Some(&offset) = index.get(&id) else {
+            return false;
+        };
+        if Self::mark_deleted(&mut file, offset).is_err() {
+            return false;
+        }
+        index.remove(&id);
+        drop(index);
+        drop(file);
         self.cache.write().remove(&id);
-        self.index.write().remove(&id).is_some()
+        true
     }
 
     fn len(&self) -> usize {
